@@ -62,7 +62,7 @@ class C01(Spec):
     lean_module = "NunVerif.Props.C01"
     theorems = ["Nun.C01_refines_map", "Nun.C01_keys_exact", "Nun.C01_refused_write_changes_nothing",
                 "Nun.C01_refused_increment_changes_nothing", "Nun.C01_pin_tombstone_is_empty", "Nun.C01_wf_new"]
-    rule = ("exhaustive sequences of length L over {set, set-safe, get, get-safe, remove, increment, keys, snapshot+SNAP} x 2 keys x values {'', '7', 'a b'} "
+    rule = ("every sequence of length 5 (6) over {set, remove, increment, incremental snapshot, reclaiming snapshot} on one key followed by get / get-safe / keys / increment probes; exhaustive sequences of length L over {set, set-safe, get, get-safe, remove, increment, keys, snapshot+SNAP} x 2 keys x values {'', '7', 'a b'} "
             "x patterns {a*, *b, a, *, ''} on an admin session of a strategy-none database, plus seeded random sequences mixing an admin and a token session; "
             "every reply, channel line, state dump and file byte is compared with the Lean model after every step; non-trivial = at least one mutation accepted and one read or refusal; distinct by trace hash")
     assumptions = ["single session at a time (concurrency is C02/C03)", "transport framing is C20"]
@@ -79,6 +79,16 @@ class C01(Spec):
         al1 = kvgen.kv_alphabet(keys=("a",), values=("", "7"), versions=(0, 2), incs=(None, -2), patterns=("a*", "*"))
         cases += list(kvgen.product_cases(pre, al1, 3 if tier == "quick" else 4))
         if tier != "quick": cases += list(kvgen.product_cases(pre, al, 3))
+        # one key through every storage state: all sequences of length 5 (6) over {set, remove, increment, incremental snapshot,
+        # reclaiming snapshot}, then every kind of read — whatever the snapshots did to the entry's status must not show
+        one = [["C 1 set a 7"], ["C 1 remove a"], ["C 1 increment a"], ["C 1 snapshot false", "SNAP"], ["C 1 snapshot true", "SNAP"]]
+        probes = ["C 1 get a", "C 1 get-safe a", "C 1 keys", "C 1 keys a*", "C 1 increment a 5", "C 1 get a", "C 1 keys"]
+        import itertools
+        for seq in itertools.product(one, repeat=5 if tier == "quick" else 6):
+            if not any(x[0].startswith("C 1 snapshot") for x in seq): continue
+            c = list(pre)
+            for x in seq: c += x
+            cases.append(c + probes)
         rng = core.XorShift(seed)
         al2 = kvgen.kv_alphabet(keys=("a", "b", "$$s"), values=("", "7", "a b", "-3", "2147483647", "h\\xc3\\xa9"), sess=(1, 2),
                                 incs=(None, 5, -2, 2147483647), patterns=("a*", "*b", "a", "*", "", "$$*", "*$$"))
